@@ -23,6 +23,7 @@ CONSTANTS
   NameOrder <- TimesT
   BuildCfgs <- TimesT
   IntegrCfgs <- TimesT
+  OdeCfgs <- TimesT
   UnitCfgs <- TimesT
   Times <- TimesT
   Tol = 0
